@@ -640,6 +640,10 @@ class PropertyRun:
             'samples': samples or ['(no deductive obligations for this property in this run)'],
             'explanation': plan.EXPLANATION,
         }
+        if getattr(self, 'replay_errors', None):
+            cov['replay_errors'] = self.replay_errors
+            for e_ in self.replay_errors[:2]:
+                self.log("  [replay] internal error while replaying a counter-model (no verdict from it): " + e_.strip().splitlines()[-1][:200])
         if getattr(self, 'mutants', None) is not None:
             cov['mutant_selftest'] = self.mutants
         if getattr(self, 'lean', None) is not None:
